@@ -136,6 +136,11 @@ func (s *sess) apply(l int) bool {
 		order := o1
 		if l == 8 {
 			prio = &h2wire.Prio{Dep: 0, Excl: id%4 == 1, Weight: uint8(40 + id)}
+			if id%4 == 3 {
+				// the PRIORITY flag with an all-zero priority field (not exclusive, dependency 0, weight byte 0 = weight 1):
+				// it still is a HEADERS frame carrying priority and must be listed as stream:0:0:1
+				prio = &h2wire.Prio{}
+			}
 			order = o2
 		}
 		fs := hdr(order, path)
